@@ -74,7 +74,7 @@ theorem PLast.spec : RateSpec PLast where
     rintro st log E v ⟨alive, tr, ht, hk, _, hc⟩
     exact ⟨alive, tr, ht, hk, fun h => by simp at h, fun h => absurd (hc h).2.1 (by simp)⟩
   term := by
-    rintro st log E n s hn hf ⟨alive, tr, ht, hk, hfull, hc⟩
+    rintro st log E n s hn ⟨alive, tr, ht, hk, hfull, hc⟩
     have hnc : Notif.complete ∉ log := fun h => absurd (hc h).2.1 (by simp)
     obtain ⟨hal, hlast⟩ := hfull rfl rfl
     subst hal
@@ -110,8 +110,8 @@ theorem PLast.spec : RateSpec PLast where
         exact PLast.intro false none rfl hk (fun h => by simp at h) (fun _ => ⟨rfl, rfl, key tr' hlast⟩)
     | _ => simp [Stage.trail] at ht
   termDead := by
-    rintro st log E a ⟨alive, tr, ht, hk, _, hc⟩
-    exact ⟨alive, tr, ht, hk, fun _ h => by simp at h, fun h => absurd (hc h).2.1 (by simp)⟩
+    rintro st log E ⟨alive, tr, ht, hk, _, hc⟩
+    exact ⟨alive, tr, ht, hk, fun h => by simp at h, fun h => absurd (hc h).2.1 (by simp)⟩
   unsub := by
     rintro st log E a T ⟨alive, tr, ht, hk, _, hc⟩
     cases st with
